@@ -675,6 +675,7 @@ func (c *Ctx) runC15spzValidate() {
 
 func (c *Ctx) runC15spz() {
 	c.runC15spzValidate()
+	c.runC15halfAll()
 	fbs := []uint8{0, 1, 3, 8, 12, 16, 20, 23, 24, 31, 40, 62, 63, 64, 200}
 	for k := 0; k < c.N; k++ {
 		version := uint32(1 + k%2)
@@ -964,4 +965,42 @@ func (w *c15failWriter) Write(p []byte) (int, error) {
 	}
 	w.n += len(p)
 	return len(p), nil
+}
+
+// EVERY half-float pattern through spz.Read: version-1 streams whose position array holds the patterns
+// base .. base+4097 (mod 65536; 1366 points x 3 coordinates), 16 chunks cover 0x0000..0xffff. The model line is
+// answered with Half.halfToFloatBits (the source's operators on BitVec 16); the oracle evaluates the closed form of
+// the theorems half_is_binary16 / half_step on the implementation's values.
+func (c *Ctx) runC15halfAll() {
+	const chunk = 4096
+	const pts = 1366 // 3*1366 = 4098 >= chunk
+	for base := 0; base < 65536; base += chunk {
+		recs := make([]c15packed, pts)
+		for i := range recs {
+			pos := make([]byte, 6)
+			for k := 0; k < 3; k++ {
+				binary.LittleEndian.PutUint16(pos[2*k:], uint16((base+3*i+k)%65536))
+			}
+			recs[i] = c15packed{pos: pos, alpha: byte(i), color: []byte{1, 2, 3}, scale: []byte{4, 5, 6}, rot: []byte{7, 8, 9}}
+		}
+		stream := c15spzEncode(0x5053474e, 1, pts, 0, 12, 0, 0, recs)
+		ans := Guard(func() string {
+			cl, err := spz.Read(bytes.NewReader(c15gzip(stream)))
+			if err != nil {
+				return "err"
+			}
+			a := cl.Mesh.Float3Attribute(modeling.PositionAttribute)
+			fs := make([]float64, 0, 3*a.Len())
+			for i := 0; i < a.Len(); i++ {
+				fs = append(fs, a.At(i).X(), a.At(i).Y(), a.At(i).Z())
+			}
+			if len(fs) < chunk {
+				return "short"
+			}
+			return c15FCs(fs[:chunk]...)
+		})
+		c.Note("c15.spz.halfall.chunk")
+		c.Emit("c15.spz.halfall", fmt.Sprintf("%d %d", base, chunk), ans)
+		c.Emit("c15.holds.half_binary16", fmt.Sprintf("%d %d %s", base, chunk, ans), "true")
+	}
 }
